@@ -393,4 +393,451 @@ Section R.
         rewrite <- app_assoc, dropN_app_len. cbn [app is_zero bn].
         eexists. split; [reflexivity|]. cbn [adv r_pos]. lia.
   Qed.
+
+  (* ---------- arrays ---------- *)
+  Lemma sig_eqb_refl : forall s, sig_eqb s s = true.
+  Proof.
+    induction s using sig_ind'; cbn [sig_eqb]; try reflexivity; try assumption.
+    - now rewrite IHs1, IHs2.
+    - induction H as [|x l Hx Hl IH]; [reflexivity|]. now rewrite Hx, IH.
+  Qed.
+
+  Lemma arr_loop_fixed l : forall fuel (k : nat) st a c acc off,
+    (length l < k)%nat -> (gheights l <= fuel)%nat -> r_e st = e ->
+    forallb (fun x => gwf x && sig_eqb (gsig x) c) l = true -> forallb (pre e) l = true ->
+    gis_fixed c = true -> a_child a = c -> a_offs a = None -> a_offs_len a = 0 ->
+    dep_ok (r_dep st) -> forallb (gdepth_ok (d_struct (r_dep st)) (d_array (r_dep st)) (dtot (r_dep st))) l = true ->
+    r_len st < big -> a_start a + a_len a = r_len st -> r_pos st = a_start a + off ->
+    (r_pos0 st + a_start a) mod galign c = 0 ->
+    holds st (concat (gparts e l off)) ->
+    exists st', arr_loop (gde fuel) a c k None st acc = Ok (frev acc ++ l, st') /\ r_pos st' = r_len st.
+  Proof.
+    induction l as [|x l IH]; intros fuel k st a c acc off Hk Hfuel He Hw Hp Hfx Hch Hoffs Hol Hd Hf Hlen Hend Hpos Hal Hst;
+      (destruct k as [|k]; [cbn in Hk; lia|]); cbn [arr_loop].
+    - cbn [gparts concat] in Hst. apply holds_nil in Hst. unfold garr_done. rewrite Hend, Hst, N.eqb_refl.
+      eexists. split; [now rewrite app_nil_r|]. unfold garr_finish. rewrite Hol. cbn [rset_dep adv r_pos]. lia.
+    - cbn [forallb gheights length] in *.
+      apply andb_true_iff in Hw as [Hwx Hw]. apply andb_true_iff in Hwx as [Hwx Hsx]. apply sig_eqb_eq in Hsx.
+      apply andb_true_iff in Hp as [Hpx Hp]. apply andb_true_iff in Hf as [Hfitx Hf].
+      cbn [gparts concat] in Hst. set (px := pad off (galign (gsig x)) ++ gvb e x) in *.
+      destruct Hst as (t & Ht & Hb). rewrite len_app in Hb.
+      assert (Hne : 1 <= len (gvb e x)) by (apply fixed_nonempty; [assumption|now rewrite Hsx]).
+      assert (Hpx1 : 1 <= len px) by (subst px; rewrite len_app; lia).
+      unfold garr_done. destruct (N.eqb_spec (r_pos st) (a_start a + a_len a)); [lia|].
+      rewrite Hend.
+      destruct (sub_starts st (r_len st) (a_child a) (r_dep st) (px ++ concat (gparts e l (off + len px))))
+        as (sub & Hsub & Hss & Hs0 & Hsl & Hsp0 & Hse & Hssig & Hsdep & _); try lia.
+      { exists t. exact Ht. } { rewrite len_app. lia. }
+      rewrite Hsub. cbn [bind].
+      assert (Hpadx : pad (r_pos0 sub + r_pos sub) (galign (gsig x)) = pad off (galign (gsig x))).
+      { rewrite Hsp0, Hs0, N.add_0_r, Hpos, N.add_assoc. apply pad_shift; [apply galign_nz|now rewrite Hsx]. }
+      destruct (rt_fixed_all x fuel sub (concat (gparts e l (off + len px)))) as (sub' & Hdec & Hsub'); try assumption; try lia.
+      { congruence. } { now rewrite Hsx. } { congruence. } { now rewrite Hsdep. } { unfold gfits. now rewrite Hsdep. }
+      { rewrite Hpadx. exact Hss. }
+      rewrite Hdec. cbn [bind]. rewrite Hpadx in Hsub'. fold px in Hsub'. rewrite Hs0, N.add_0_l in Hsub'. rewrite Hsub'.
+      cbn [adv r_pos]. destruct (N.ltb_spec (r_len st) (r_pos st + len px)); [lia|].
+      rewrite Hsx, sig_eqb_refl. cbn [negb].
+      destruct (IH fuel k (adv st (len px)) a c (x :: acc) (off + len px)) as (st' & Hrun & Hp'); cbn [adv r_e r_dep r_len r_pos r_pos0 r_rest]; try assumption; try lia.
+      + exists t. cbn [adv r_rest r_pos r_len]. rewrite Ht, <- app_assoc, dropN_app_len. split; [reflexivity|lia].
+      + exists st'. split; [|exact Hp']. rewrite Hrun. rewrite !frev_rev. cbn [rev]. now rewrite <- app_assoc.
+  Qed.
+
+  Lemma gparts_count_fixed l off c : forallb (fun x => gwf x && sig_eqb (gsig x) c) l = true -> gis_fixed c = true ->
+    N.of_nat (length l) <= len (concat (gparts e l off)).
+  Proof.
+    revert off. induction l as [|x l IH]; intros off Hw Hfx; [cbn; lia|].
+    cbn [forallb] in Hw. apply andb_true_iff in Hw as [Hwx Hw]. apply andb_true_iff in Hwx as [Hwx Hsx]. apply sig_eqb_eq in Hsx.
+    cbn [gparts concat length]. rewrite !len_app.
+    pose proof (fixed_nonempty e x Hwx) as Hne. rewrite Hsx in Hne. specialize (Hne Hfx).
+    specialize (IH (off + len (pad off (galign (gsig x)) ++ gvb e x)) Hw Hfx). rewrite len_app in IH. lia.
+  Qed.
+
+  Lemma garr_new_run st c (vs : option sig) d' :
+    inc_array (r_dep st) = Ok d' -> (r_sig st = SArray c) ->
+    (r_pos0 st + r_pos st) mod galign c = 0 -> align_gv (SArray c) = galign c -> r_pos st <= r_len st ->
+    fixed_sized c = true ->
+    garr_new st = Ok (rset_dep st d', {| a_len := r_len st - r_pos st; a_start := r_pos st; a_al := galign c; a_child := c;
+                                         a_vsig := None; a_offs := None; a_offs_len := 0; a_kos := None |}).
+  Proof.
+    intros Hinc Hs Hal Hag Hp Hfx. unfold garr_new. rewrite Hinc. cbn [bind].
+    change (r_sig (rset_dep st d')) with (r_sig st). rewrite Hs, Hag.
+    rewrite gparse_padding_aligned by (apply galign_nz || assumption). cbn [bind].
+    cbn [rset_dep r_len r_pos r_sig]. destruct (N.ltb_spec (r_len st) (r_pos st)); [lia|]. rewrite Hs. cbn [bind]. rewrite Hfx. reflexivity.
+  Qed.
+
+  Lemma rt_array_fixed el l : gis_fixed el = true -> rt (GArray el l).
+  Proof.
+    intros Hfx fuel st Hfuel He Hw Hp Hr Hs Hd Hf Hl Hst. destruct fuel as [|f]; [cbn in Hfuel; lia|].
+    rewrite gheight_array in Hfuel.
+    pose proof (pre_align e _ Hp Hw) as Hal. cbn [gsig galign] in *.
+    cbn [gwf] in Hw. apply andb_true_iff in Hw as [Hel Hwl].
+    unfold pre in Hp. rewrite all_nodes_array in Hp. apply andb_true_iff in Hp as [_ Hpl].
+    unfold gfits in Hf. cbn [gdepth_ok] in Hf. apply andb_true_iff in Hf as [Hf Hfl]. apply andb_true_iff in Hf as [Hf1 Hf2].
+    apply N.leb_le in Hf1, Hf2.
+    destruct (inc_array_good _ Hd Hf1 Hf2) as (d' & Hinc & Hdec & Hd' & Hs' & Ha' & Ht').
+    rewrite gvb_array in Hst. cbv zeta in Hst. rewrite Hfx in Hst. set (data := concat (gparts e l 0)) in *.
+    set (p := padn (r_pos0 st + r_pos st) (galign el)).
+    unfold gde. rewrite (gde_gen_array read_last f st el Hs). rewrite Hs, Hal.
+    rewrite (gparse_padding_starts st (galign el) _ (holds_starts _ _ Hst)). cbn [bind]. fold p.
+    apply holds_after_pad in Hst. fold p in Hst.
+    assert (Hal2 : (r_pos0 (adv st p) + r_pos (adv st p)) mod galign el = 0).
+    { cbn [adv r_pos0 r_pos]. rewrite N.add_assoc. subst p. apply padn_after, galign_nz. }
+    destruct Hst as (t & Ht & Hb).
+    rewrite (garr_new_run (adv st p) el None d'); try assumption; cbn [adv r_dep r_sig r_pos r_len]; try lia.
+    cbn [bind a_offs].
+    destruct (arr_loop_fixed l f (S (N.to_nat (r_len st))) (rset_dep (adv st p) d')
+                {| a_len := r_len st - (r_pos st + p); a_start := r_pos st + p; a_al := galign el; a_child := el;
+                   a_vsig := None; a_offs := None; a_offs_len := 0; a_kos := None |} el [] 0) as (st' & Hrun & Hp');
+      cbn [rset_dep adv r_e r_dep r_len r_pos r_pos0 r_rest a_child a_offs a_offs_len a_start a_len]; try assumption; try reflexivity; try lia.
+    - pose proof (gparts_count_fixed l 0 el Hwl Hfx) as Hc. fold data in Hc. cbn [adv r_pos r_len] in Hb. lia.
+    - rewrite Hs', Ha', Ht'. assumption.
+    - cbn [adv r_pos r_len] in Hb. lia.
+    - exists t. cbn [adv r_pos r_len r_rest] in *. split; [exact Ht|exact Hb].
+    - cbn [rset_dep adv r_len] in Hrun. unfold gde in Hrun. rewrite Hrun. cbn [bind frev rev_append app].
+      exists st'. split; [reflexivity|exact Hp'].
+    - cbn [adv r_pos r_len] in Hb. lia.
+  Qed.
+
+  (* ---------- framing offsets read back ---------- *)
+  Lemma for_encoded_framing n k : n + 8 * k <= 18446744073709551615 ->
+    for_encoded_container (n + offset_width n k * k) = Ok (offset_width n k).
+  Proof.
+    intros H. unfold for_encoded_container. rewrite for_bare_cases. rewrite !N.mul_0_l, !N.add_0_r. unfold offset_width.
+    destruct (N.leb_spec (n + k) 255).
+    { destruct (N.leb_spec (n + 1 * k) 255); [reflexivity|lia]. }
+    destruct (N.leb_spec (n + 2 * k) 65535).
+    { destruct (N.leb_spec (n + 2 * k) 255); [lia|]. destruct (N.leb_spec (n + 2 * k) 65535); [reflexivity|lia]. }
+    destruct (N.leb_spec (n + 4 * k) 4294967295).
+    { destruct (N.leb_spec (n + 4 * k) 255); [lia|]. destruct (N.leb_spec (n + 4 * k) 65535); [lia|].
+      destruct (N.leb_spec (n + 4 * k) 4294967295); [reflexivity|lia]. }
+    destruct (N.leb_spec (n + 8 * k) 255); [lia|]. destruct (N.leb_spec (n + 8 * k) 65535); [lia|].
+    destruct (N.leb_spec (n + 8 * k) 4294967295); [lia|].
+    destruct (N.leb_spec (n + 8 * k) 18446744073709551615); [reflexivity|lia].
+  Qed.
+
+  (* with the chosen width every position inside the container fits an offset *)
+  Lemma offset_fits n k o : n + 8 * k <= 18446744073709551615 -> o <= n + offset_width n k * k ->
+    o < 2 ^ (8 * N.of_nat (N.to_nat (offset_width n k))).
+  Proof.
+    intros H Ho. rewrite N2Nat.id. unfold offset_width in *.
+    destruct (N.leb_spec (n + k) 255); [change (2 ^ (8 * 1)) with 256; lia|].
+    destruct (N.leb_spec (n + 2 * k) 65535); [change (2 ^ (8 * 2)) with 65536; lia|].
+    destruct (N.leb_spec (n + 4 * k) 4294967295); [change (2 ^ (8 * 4)) with 4294967296; lia|].
+    change (2 ^ (8 * 8)) with 18446744073709551616. lia.
+  Qed.
+
+  Lemma offs_enc_cons w o l : offs_enc w (o :: l) = le_bytes (N.to_nat w) o ++ offs_enc w l.
+  Proof. reflexivity. Qed.
+  Lemma offs_enc_app w l1 l2 : offs_enc w (l1 ++ l2) = offs_enc w l1 ++ offs_enc w l2.
+  Proof. unfold offs_enc. now rewrite map_app, concat_app. Qed.
+
+  Lemma offs_loop_enc w os : 1 <= w -> forall l k acc,
+    (length (offs_enc w l) < k)%nat -> Forall (fun o => o < 2 ^ (8 * N.of_nat (N.to_nat w)) /\ o <= os) l ->
+    offs_loop w os k (offs_enc w l) acc = Ok (frev acc ++ l).
+  Proof.
+    intros Hw. induction l as [|o l IH]; intros k acc Hk HF; (destruct k as [|k]; [cbn in Hk; lia|]).
+    - cbn [offs_enc map concat offs_loop]. now rewrite app_nil_r.
+    - inversion HF as [|? ? [Ho1 Ho2] HF']; subst. rewrite offs_enc_cons in *.
+      assert (Hlb : len (le_bytes (N.to_nat w) o) = w) by (rewrite len_le_bytes; lia).
+      cbn [offs_loop]. destruct (le_bytes (N.to_nat w) o ++ offs_enc w l) eqn:Hl.
+      { exfalso. apply (f_equal (@length byte)) in Hl. rewrite app_length, le_bytes_length in Hl. cbn in Hl. lia. }
+      rewrite <- Hl in *. cbv zeta. set (X := le_bytes (N.to_nat w) o) in *. set (R := offs_enc w l) in *.
+      replace (takeN w (X ++ R)) with X by (rewrite <- Hlb; symmetry; apply takeN_app_len).
+      replace (dropN w (X ++ R)) with R by (rewrite <- Hlb; symmetry; apply dropN_app_len).
+      rewrite Hlb, N.ltb_irrefl. subst X R.
+      rewrite DeCompleteFacts.le_val_le_bytes by assumption.
+      destruct (N.ltb_spec os o); [lia|].
+      rewrite IH; [|rewrite app_length, le_bytes_length in Hk; lia|assumption].
+      rewrite !frev_rev. cbn [rev]. now rewrite <- app_assoc.
+  Qed.
+
+  Lemma ends_from_le ps : forall off, Forall (fun o => o <= off + len (concat ps)) (ends_from off ps).
+  Proof.
+    induction ps as [|b r IH]; intros off; [constructor|]. cbn [ends_from concat]. rewrite len_app. constructor; [lia|].
+    eapply Forall_impl; [|apply IH]. cbn. intros o Ho. lia.
+  Qed.
+
+  Lemma rtok_array el l : rtok (GArray el l) = true -> forallb rtok l = true.
+  Proof. unfold rtok. rewrite all_nodes_array. cbn [node_rt andb]. tauto. Qed.
+  Lemma rtok_struct l : rtok (GStruct l) = true -> forallb rtok l = true.
+  Proof. unfold rtok. rewrite all_nodes_struct. cbn [node_rt andb]. tauto. Qed.
+
+  (* elements of variable size: each is read from the window that its framing offset delimits *)
+  Lemma arr_loop_var l : Forall rt l -> forall fuel (k : nat) st a c acc off t,
+    (length l < k)%nat -> (gheights l <= fuel)%nat -> r_e st = e ->
+    forallb (fun x => gwf x && sig_eqb (gsig x) c) l = true -> forallb (pre e) l = true -> forallb rtok l = true ->
+    a_child a = c ->
+    dep_ok (r_dep st) -> forallb (gdepth_ok (d_struct (r_dep st)) (d_array (r_dep st)) (dtot (r_dep st))) l = true ->
+    r_len st < big -> r_pos st = a_start a + off ->
+    a_start a + a_len a = r_pos st + len (concat (gparts e l off)) ->
+    a_start a + a_len a + a_offs_len a <= r_len st ->
+    (r_pos0 st + a_start a) mod galign c = 0 ->
+    r_rest st = concat (gparts e l off) ++ t ->
+    exists st', arr_loop (gde fuel) a c k (Some (ends_from off (gparts e l off))) st acc = Ok (frev acc ++ l, st') /\
+                r_pos st' = a_start a + a_len a + a_offs_len a.
+  Proof.
+    induction 1 as [|x l Hx Hl IH]; intros fuel k st a c acc off t Hk Hfuel He Hw Hp Hr Hch Hd Hf Hlen Hpos Hend Hbound Hal Hrest;
+      (destruct k as [|k]; [cbn in Hk; lia|]); cbn [arr_loop].
+    - cbn [gparts concat ends_from garr_done] in *. rewrite len_nil in Hend.
+      eexists. split; [now rewrite app_nil_r|]. unfold garr_finish. cbn [rset_dep adv r_pos]. lia.
+    - cbn [forallb gheights length] in *.
+      apply andb_true_iff in Hw as [Hwx Hw]. apply andb_true_iff in Hwx as [Hwx Hsx]. apply sig_eqb_eq in Hsx.
+      apply andb_true_iff in Hp as [Hpx Hp]. apply andb_true_iff in Hf as [Hfitx Hf]. apply andb_true_iff in Hr as [Hrx Hr].
+      cbn [gparts concat ends_from] in *. set (px := pad off (galign (gsig x)) ++ gvb e x) in *.
+      rewrite len_app in Hend. cbn [garr_done].
+      destruct (sub_starts st (a_start a + (off + len px)) (a_child a) (r_dep st) px)
+        as (sub & Hsub & Hss & Hs0 & Hsl & Hsp0 & Hse & Hssig & Hsdep & _); try lia.
+      { exists (concat (gparts e l (off + len px)) ++ t). rewrite Hrest. now rewrite <- app_assoc. }
+      rewrite Hsub. cbn [bind].
+      assert (Hpadx : pad (r_pos0 sub + r_pos sub) (galign (gsig x)) = pad off (galign (gsig x))).
+      { rewrite Hsp0, Hs0, N.add_0_r, Hpos, N.add_assoc. apply pad_shift; [apply galign_nz|now rewrite Hsx]. }
+      destruct (Hx fuel sub) as (sub' & Hdec & Hsub'); try assumption; try lia.
+      { congruence. } { congruence. } { now rewrite Hsdep. } { unfold gfits. now rewrite Hsdep. }
+      { rewrite Hpadx. fold px. destruct Hss as (t2 & Ht2 & Hb2). exists t2. split; [assumption|]. lia. }
+      rewrite Hdec. cbn [bind]. rewrite Hsub', Hsl.
+      replace (a_start a + (off + len px) - r_pos st) with (len px) by lia.
+      cbn [adv r_pos]. destruct (N.ltb_spec (a_start a + a_len a) (r_pos st + len px)); [lia|].
+      rewrite Hsx, sig_eqb_refl. cbn [negb].
+      destruct (IH fuel k (adv st (len px)) a c (x :: acc) (off + len px) t) as (st' & Hrun & Hp'); cbn [adv r_e r_dep r_len r_pos r_pos0 r_rest]; try assumption; try lia.
+      + rewrite Hrest, <- app_assoc, dropN_app_len. reflexivity.
+      + exists st'. split; [|exact Hp']. rewrite Hrun. rewrite !frev_rev. cbn [rev]. now rewrite <- app_assoc.
+  Qed.
+
+  Lemma length_offs_enc w l : length (offs_enc w l) = (N.to_nat w * length l)%nat.
+  Proof.
+    unfold offs_enc. induction l as [|o l IH]; cbn [map concat length]; [lia|]. rewrite app_length, le_bytes_length, IH. lia.
+  Qed.
+  Lemma last_app1 {A} (l : list A) x d : last (l ++ [x]) d = x.
+  Proof. apply last_last. Qed.
+
+  (* from_encoded_array on a window that is exactly data ++ framing offsets *)
+  Lemma from_encoded_run st (ps : list bytes) :
+    let data := concat ps in let ends := ends_from 0 ps in
+    len data + 8 * N.of_nat (length ps) <= 18446744073709551615 ->
+    holds st (data ++ framing (len data) ends) ->
+    from_encoded_array st = Ok (ends, len (framing (len data) ends)).
+  Proof.
+    intros data ends Hsmall (t & Ht & Hb). rewrite from_encoded_array_eq. cbv zeta.
+    set (n := len data) in *. set (k := N.of_nat (length ends)).
+    assert (Hk : k = N.of_nat (length ps)) by (subst k ends; now rewrite length_ends_from).
+    set (w := offset_width n k). assert (Hw1 : 1 <= w) by apply offset_width_pos.
+    assert (HF : framing n ends = offs_enc w ends) by reflexivity.
+    assert (HlenF : len (framing n ends) = w * k) by (rewrite HF; apply len_offs_enc).
+    rewrite len_app, HlenF in Hb.
+    assert (Hclen : r_len st - r_pos st = n + w * k) by lia. rewrite Hclen.
+    unfold w at 1. rewrite (for_encoded_framing n k) by lia. fold w. cbn [bind].
+    assert (Hends : Forall (fun o => o < 2 ^ (8 * N.of_nat (N.to_nat w)) /\ o <= n) ends).
+    { pose proof (ends_from_le ps 0) as Hle. fold ends data in Hle. rewrite N.add_0_l in Hle. fold n in Hle.
+      eapply Forall_impl; [|exact Hle]. cbn. intros o Ho. split; [|assumption]. apply offset_fits; [lia|]. fold w. lia. }
+    destruct ps as [|p0 ps'].
+    - (* no element: the empty window *)
+      cbn in *. subst n k. cbn in *. unfold read_last. replace (r_len st - r_pos st) with 0 by lia. cbn [N.eqb bind].
+      replace (r_len st - r_pos st) with 0 by lia. cbn. reflexivity.
+    - (* the last offset is the length of the data *)
+      assert (Hk1 : 1 <= k) by (rewrite Hk; cbn [length]; lia).
+      assert (Hlast : last ends 0 = n).
+      { subst ends n data. rewrite last_end by discriminate. lia. }
+      assert (Hsplit : exists ends', ends = ends' ++ [n]).
+      { exists (removelast ends). rewrite <- Hlast. apply app_removelast_last. subst ends. discriminate. }
+      destruct Hsplit as (ends' & Hsp).
+      assert (HF2 : framing n ends = offs_enc w ends' ++ le_bytes (N.to_nat w) n).
+      { rewrite HF, Hsp, offs_enc_app. cbn [offs_enc map concat]. now rewrite app_nil_r. }
+      unfold read_last. replace (r_len st - r_pos st) with (n + w * k) by lia.
+      assert (Hwk : w <= w * k) by nia.
+      destruct (N.eqb_spec (n + w * k) 0); [lia|]. destruct (N.ltb_spec (n + w * k) w); [lia|].
+      rewrite from_idx_ge by lia.
+      assert (Hpre : r_len st - w - r_pos st = len (data ++ offs_enc w ends')).
+      { rewrite len_app. apply (f_equal len) in HF2. rewrite HlenF, len_app, len_le_bytes in HF2. fold n. lia. }
+      rewrite Hpre, Ht, HF2. rewrite !app_assoc. rewrite <- (app_assoc (data ++ offs_enc w ends')).
+      rewrite dropN_app_len.
+      assert (Hlb : len (le_bytes (N.to_nat w) n) = w) by (rewrite len_le_bytes; lia).
+      pose proof (takeN_app_len (le_bytes (N.to_nat w) n) t) as Htk. rewrite Hlb in Htk. rewrite Htk.
+      rewrite DeCompleteFacts.le_val_le_bytes.
+      2:{ rewrite Forall_forall in Hends. apply Hends. rewrite Hsp. apply in_or_app. right. now left. }
+      cbn [bind]. destruct (N.ltb_spec (n + w * k) n); [lia|].
+      replace (n + w * k - n) with (w * k) by lia.
+      rewrite from_idx_ge by lia. replace (r_pos st + n - r_pos st) with (len data) by (fold n; lia).
+      rewrite Ht, <- app_assoc, dropN_app_len. rewrite <- HlenF, takeN_app_len.
+      rewrite <- HF2. rewrite HF. rewrite (offs_loop_enc w n Hw1 ends); [|lia|assumption].
+      cbn [bind frev rev_append app]. reflexivity.
+  Qed.
+
+  Lemma length_gparts' l off : length (gparts e l off) = length l.
+  Proof. apply length_gparts. Qed.
+
+  Lemma rt_array_var el l : Forall rt l -> gis_fixed el = false -> rt (GArray el l).
+  Proof.
+    intros HF Hfx fuel st Hfuel He Hw Hp Hr Hs Hd Hf Hl Hst. destruct fuel as [|f]; [cbn in Hfuel; lia|].
+    rewrite gheight_array in Hfuel.
+    pose proof (pre_align e _ Hp Hw) as Hal. cbn [gsig galign] in *.
+    destruct (pre_node e _ Hp) as (_ & _ & _ & _ & Hsmall).
+    cbn [gwf] in Hw. apply andb_true_iff in Hw as [Hel Hwl].
+    unfold pre in Hp. rewrite all_nodes_array in Hp. apply andb_true_iff in Hp as [_ Hpl].
+    apply rtok_array in Hr.
+    unfold gfits in Hf. cbn [gdepth_ok] in Hf. apply andb_true_iff in Hf as [Hf Hfl]. apply andb_true_iff in Hf as [Hf1 Hf2].
+    apply N.leb_le in Hf1, Hf2.
+    destruct (inc_array_good _ Hd Hf1 Hf2) as (d' & Hinc & Hdec & Hd' & Hs' & Ha' & Ht').
+    rewrite gvb_array in Hst, Hsmall. cbv zeta in Hst, Hsmall. rewrite Hfx in Hst, Hsmall.
+    set (ps := gparts e l 0) in *. set (data := concat ps) in *. set (ends := ends_from 0 ps) in *.
+    set (F := framing (len data) ends) in *.
+    set (p := padn (r_pos0 st + r_pos st) (galign el)).
+    assert (Hsm : len data + 8 * N.of_nat (length ps) <= 18446744073709551615).
+    { rewrite len_app in Hsmall. subst F. rewrite len_framing in Hsmall. subst ends. rewrite length_ends_from in Hsmall.
+      pose proof (offset_width_pos (len data) (N.of_nat (length ps))) as Hw1.
+      change (2 ^ 60) with 1152921504606846976 in Hsmall. nia. }
+    unfold gde. rewrite (gde_gen_array read_last f st el Hs). rewrite Hs, Hal.
+    rewrite (gparse_padding_starts st (galign el) _ (holds_starts _ _ Hst)). cbn [bind]. fold p.
+    apply holds_after_pad in Hst. fold p in Hst.
+    assert (Hal2 : (r_pos0 (adv st p) + r_pos (adv st p)) mod galign el = 0).
+    { cbn [adv r_pos0 r_pos]. rewrite N.add_assoc. subst p. apply padn_after, galign_nz. }
+    (* ArrayDeserializer::new *)
+    unfold garr_new. change (r_dep (adv st p)) with (r_dep st). rewrite Hinc. cbn [bind].
+    change (r_sig (rset_dep (adv st p) d')) with (r_sig st). rewrite Hs, Hal.
+    rewrite gparse_padding_aligned by (apply galign_nz || exact Hal2). cbn [bind].
+    destruct Hst as (t & Ht & Hb). cbn [adv r_pos r_len r_rest] in Ht, Hb.
+    cbn [rset_dep adv r_len r_pos r_sig]. destruct (N.ltb_spec (r_len st) (r_pos st + p)); [lia|]. rewrite Hs. cbn [bind].
+    change fixed_sized with gis_fixed. rewrite Hfx.
+    assert (Hholds : holds (rset_dep (adv st p) d') (data ++ F)).
+    { exists t. cbn [rset_dep adv r_rest r_pos r_len]. split; [exact Ht|exact Hb]. }
+    rewrite (from_encoded_run _ ps Hsm Hholds). fold data ends F. cbn [bind].
+    rewrite len_app in Hb.
+    destruct (N.ltb_spec (r_len st - (r_pos st + p)) (len F)); [lia|]. cbn [bind a_offs].
+    set (a := {| a_len := r_len st - (r_pos st + p) - len F; a_start := r_pos st + p; a_al := galign el; a_child := el;
+                 a_vsig := None; a_offs := Some ends; a_offs_len := len F; a_kos := Some 1 |}).
+    destruct (arr_loop_var l HF f (S (N.to_nat (r_len st))) (rset_dep (adv st p) d') a el [] 0 (F ++ t)) as (st' & Hrun & Hp');
+      subst a; cbn [rset_dep adv r_e r_dep r_len r_pos r_pos0 r_rest a_child a_offs a_offs_len a_start a_len]; try assumption; try reflexivity; try lia.
+    - (* enough loop fuel: one offset byte at least per element *)
+      destruct l as [|x0 l0]; [cbn; lia|].
+      assert (HlF : N.of_nat (length (x0 :: l0)) <= len F).
+      { subst F. rewrite len_framing. subst ends ps. rewrite length_ends_from, length_gparts.
+        pose proof (offset_width_pos (len data) (N.of_nat (length (x0 :: l0)))). nia. }
+      lia.
+    - rewrite Hs', Ha', Ht'. assumption.
+    - fold ps data. lia.
+    - fold ps data. rewrite Ht. now rewrite <- app_assoc.
+    - cbn [rset_dep adv r_len] in Hrun. unfold gde in Hrun. fold ps ends in Hrun. rewrite Hrun. cbn [bind frev rev_append app].
+      exists st'. split; [reflexivity|]. cbn [a_start a_len a_offs_len] in Hp'. rewrite Hp'. lia.
+  Qed.
+
+  (* ---------- tuples with variable-size members ---------- *)
+  Lemma tuple_offsets_cons s s' sr en er :
+    tuple_offsets (s :: s' :: sr) (en :: er) = (if gis_fixed s then [] else [en]) ++ tuple_offsets (s' :: sr) er.
+  Proof. reflexivity. Qed.
+
+  Lemma read_last_at st a b w o X t : 1 <= w -> r_pos st <= a -> a + w <= b ->
+    o < 2 ^ (8 * N.of_nat (N.to_nat w)) ->
+    r_rest st = X ++ le_bytes (N.to_nat w) o ++ t -> r_pos st + len X + w = b ->
+    read_last st a b w = Ok o.
+  Proof.
+    intros Hw Ha Hab Ho Hr Hb. unfold read_last.
+    destruct (N.eqb_spec (b - a) 0); [lia|]. destruct (N.ltb_spec (b - a) w); [lia|].
+    rewrite from_idx_ge by lia. replace (b - w - r_pos st) with (len X) by lia.
+    rewrite Hr, dropN_app_len.
+    assert (Hlb : len (le_bytes (N.to_nat w) o) = w) by (rewrite len_le_bytes; lia).
+    pose proof (takeN_app_len (le_bytes (N.to_nat w) o) t) as Htk. rewrite Hlb in Htk. rewrite Htk.
+    now rewrite DeCompleteFacts.le_val_le_bytes.
+  Qed.
+
+  Lemma struct_loop_var l : Forall rt l -> l <> [] -> forall fuel st start w off ol acc R A,
+    (gheights l <= fuel)%nat -> r_e st = e -> forallb gwf l = true -> forallb (pre e) l = true -> forallb rtok l = true ->
+    dep_ok (r_dep st) -> forallb (gdepth_ok (d_struct (r_dep st)) (d_array (r_dep st)) (dtot (r_dep st))) l = true ->
+    r_len st < big -> r_pos st = start + off -> 1 <= w ->
+    A <> 0 -> (r_pos0 st + start) mod A = 0 -> (forall x, In x l -> A mod galign (gsig x) = 0) ->
+    let ps := gparts e l off in let toffs := tuple_offsets (map gsig l) (ends_from off ps) in
+    Forall (fun o => o < 2 ^ (8 * N.of_nat (N.to_nat w))) toffs ->
+    r_rest st = concat ps ++ offs_enc w (rev toffs) ++ R ->
+    r_pos st + len (concat ps) + w * N.of_nat (length toffs) + ol = r_len st ->
+    exists st', struct_loop (gde fuel) read_last start w (map gsig l) st
+                  (r_pos st + len (concat ps) + w * N.of_nat (length toffs)) ol acc = Ok (frev acc ++ l, st') /\
+                r_pos st' = r_len st.
+  Proof.
+    induction 1 as [|x l Hx Hl IH]; intros Hne fuel st start w off ol acc R A Hfuel He Hw Hp Hr Hd Hf Hlen Hpos Hw1 HA Hal Hdiv ps toffs Hfit Hrest Hend;
+      [congruence|].
+    cbn [forallb gheights] in *.
+    apply andb_true_iff in Hw as [Hwx Hw]. apply andb_true_iff in Hp as [Hpx Hp]. apply andb_true_iff in Hf as [Hfitx Hf].
+    apply andb_true_iff in Hr as [Hrx Hr].
+    assert (Hax : (r_pos0 st + start) mod galign (gsig x) = 0).
+    { apply (mod_trans _ A); try assumption; [apply galign_nz|]. apply Hdiv. now left. }
+    set (px := pad off (galign (gsig x)) ++ gvb e x).
+    assert (Hps : ps = px :: gparts e l (off + len px)) by reflexivity.
+    assert (Hpad : forall sub, r_pos0 sub = r_pos0 st + r_pos st -> r_pos sub = 0 ->
+              pad (r_pos0 sub + r_pos sub) (galign (gsig x)) = pad off (galign (gsig x))).
+    { intros sub H1 H2. rewrite H1, H2, N.add_0_r, Hpos, N.add_assoc. now apply pad_shift; [apply galign_nz|]. }
+    cbn [map struct_loop]. change fixed_sized with gis_fixed.
+    destruct l as [|y l'].
+    - (* the last member: no offset of its own; afterwards the offsets are skipped *)
+      cbn [map]. subst toffs. cbn [tuple_offsets map] in *. cbn [rev offs_enc map concat length] in *. rewrite N.mul_0_r, N.add_0_r in *.
+      rewrite Hps in *. cbn [gparts concat] in *. rewrite app_nil_r in *.
+      assert (Helt : (if gis_fixed (gsig x) then (Ok (r_pos st + len px, r_pos st + len px, ol) : res cerr (N * N * N))
+                      else Ok (r_pos st + len px, r_pos st + len px, ol)) = Ok (r_pos st + len px, r_pos st + len px, ol))
+        by (destruct (gis_fixed (gsig x)); reflexivity).
+      rewrite Helt. cbn [bind].
+      destruct (sub_starts st (r_pos st + len px) (gsig x) (r_dep st) px)
+        as (sub & Hsub & Hss & Hs0 & Hsl & Hsp0 & Hse & Hssig & Hsdep & _); try lia.
+      { exists R. exact Hrest. }
+      rewrite Hsub. cbn [bind].
+      destruct (Hx fuel sub) as (sub' & Hdec & Hsub'); try assumption; try lia.
+      { congruence. } { now rewrite Hsdep. } { unfold gfits. now rewrite Hsdep. }
+      { rewrite (Hpad sub Hsp0 Hs0). fold px. destruct Hss as (t2 & Ht2 & Hb2). exists t2. split; [assumption|]. lia. }
+      rewrite Hdec. cbn [bind]. eexists. split; [rewrite !frev_rev; reflexivity|].
+      cbn [adv rset_dep r_pos]. rewrite Hsub', Hsl. lia.
+    - (* a member followed by others *)
+      set (l := y :: l') in *. set (ps' := gparts e l (off + len px)) in *.
+      assert (Hto : toffs = (if gis_fixed (gsig x) then [] else [off + len px]) ++ tuple_offsets (map gsig l) (ends_from (off + len px) ps')).
+      { subst toffs. rewrite Hps. reflexivity. }
+      set (toffs' := tuple_offsets (map gsig l) (ends_from (off + len px) ps')) in *.
+      assert (Hcat : concat ps = px ++ concat ps') by (rewrite Hps; reflexivity).
+      rewrite Hcat in *. rewrite len_app in *.
+      assert (Hdiv' : forall z, In z l -> A mod galign (gsig z) = 0) by (intros z Hz; apply Hdiv; now right).
+      destruct (gis_fixed (gsig x)) eqn:Hfx.
+      + (* fixed-size member: read from the window up to the current end *)
+        cbn [app] in Hto. rewrite Hto in *. cbn [bind].
+        destruct (sub_starts st (r_pos st + (len px + len (concat ps')) + w * N.of_nat (length toffs')) (gsig x) (r_dep st)
+                    (px ++ concat ps' ++ offs_enc w (rev toffs')))
+          as (sub & Hsub & Hss & Hs0 & Hsl & Hsp0 & Hse & Hssig & Hsdep & _); try lia.
+        { exists R. rewrite Hrest. now rewrite <- !app_assoc. }
+        { rewrite !len_app, len_offs_enc, rev_length. lia. }
+        rewrite Hsub. cbn [bind].
+        destruct (rt_fixed_all x fuel sub (concat ps' ++ offs_enc w (rev toffs'))) as (sub' & Hdec & Hsub'); try assumption; try lia.
+        { congruence. } { now rewrite Hsdep. } { unfold gfits. now rewrite Hsdep. }
+        { rewrite (Hpad sub Hsp0 Hs0). exact Hss. }
+        rewrite Hdec. cbn [bind]. rewrite (Hpad sub Hsp0 Hs0) in Hsub'. fold px in Hsub'. rewrite Hs0, N.add_0_l in Hsub'. rewrite Hsub'.
+        destruct (IH ltac:(discriminate) fuel (adv st (len px)) start w (off + len px) ol (x :: acc) R A) as (st' & Hrun & Hp');
+          cbn [adv r_e r_dep r_len r_pos r_pos0 r_rest]; try assumption; try lia.
+        * rewrite Hrest, <- app_assoc, dropN_app_len. reflexivity.
+        * fold ps' toffs'. lia.
+        * fold ps' toffs' in Hrun. cbn [adv r_pos] in Hrun.
+          replace (r_pos st + len px + len (concat ps') + w * N.of_nat (length toffs')) with
+                  (r_pos st + (len px + len (concat ps')) + w * N.of_nat (length toffs')) in Hrun by lia.
+          rewrite Hrun. exists st'. split; [|exact Hp']. rewrite !frev_rev. cbn [rev]. now rewrite <- app_assoc.
+      + (* variable-size member: its end is the last framing offset not yet used *)
+        cbn [app] in Hto. rewrite Hto in *. cbn [rev length] in *. rewrite offs_enc_app in Hrest. cbn [offs_enc map concat] in Hrest.
+        rewrite app_nil_r in Hrest.
+        inversion Hfit as [|? ? Hfit1 Hfit']; subst.
+        set (end_ := r_pos st + (len px + len (concat ps')) + w * N.of_nat (S (length toffs'))) in *.
+        assert (Hend_le : end_ <= r_len st) by lia.
+        destruct (N.ltb_spec end_ start); [lia|]. destruct (N.ltb_spec (r_len st) end_); [lia|]. cbn [orb].
+        rewrite (read_last_at st start end_ w (off + len px) (px ++ concat ps' ++ offs_enc w (rev toffs')) R); try assumption; try lia.
+        2:{ subst end_. nia. }
+        2:{ rewrite Hrest. now rewrite <- !app_assoc. }
+        2:{ rewrite !len_app, len_offs_enc, rev_length. subst end_. lia. }
+        cbn [bind]. destruct (N.ltb_spec end_ w); [subst end_; nia|].
+        destruct (sub_starts st (off + len px + start) (gsig x) (r_dep st) px)
+          as (sub & Hsub & Hss & Hs0 & Hsl & Hsp0 & Hse & Hssig & Hsdep & _); try lia.
+        { exists (concat ps' ++ offs_enc w (rev toffs') ++ le_bytes (N.to_nat w) (off + len px) ++ R). rewrite Hrest. now rewrite <- !app_assoc. }
+        rewrite Hsub. cbn [bind].
+        destruct (Hx fuel sub) as (sub' & Hdec & Hsub'); try assumption; try lia.
+        { congruence. } { now rewrite Hsdep. } { unfold gfits. now rewrite Hsdep. }
+        { rewrite (Hpad sub Hsp0 Hs0). fold px. destruct Hss as (t2 & Ht2 & Hb2). exists t2. split; [assumption|]. lia. }
+        rewrite Hdec. cbn [bind]. rewrite Hsub', Hsl.
+        replace (off + len px + start - r_pos st) with (len px) by lia.
+        destruct (IH ltac:(discriminate) fuel (adv st (len px)) start w (off + len px) (ol + w) (x :: acc)
+                     (le_bytes (N.to_nat w) (off + len px) ++ R) A) as (st' & Hrun & Hp');
+          cbn [adv r_e r_dep r_len r_pos r_pos0 r_rest]; try assumption; try lia.
+        * rewrite Hrest, <- app_assoc, dropN_app_len. now rewrite <- !app_assoc.
+        * fold ps' toffs'. subst end_. lia.
+        * fold ps' toffs' in Hrun. cbn [adv r_pos] in Hrun.
+          replace (end_ - w) with (r_pos st + len px + len (concat ps') + w * N.of_nat (length toffs')) by (subst end_; lia).
+          rewrite Hrun. exists st'. split; [|exact Hp']. rewrite !frev_rev. cbn [rev]. now rewrite <- app_assoc.
+  Qed.
 End R.
